@@ -29,8 +29,10 @@ class _StubMarket:
 
 
 @native
-def account_world(S, n_assets, quotes, account_quote):
-    toks = [TokenInfo(f"TK{i}", 18) for i in range(max(n_assets, 3))]
+def account_world(S, n_assets, quotes, account_quote, names=None):
+    # token NAMES are part of the shape: the conversion rule is the same whatever the tokens are called, in particular when the
+    # account's and a market's quote tokens are two different stable coins (each has its own price in the bar's price row)
+    toks = [TokenInfo(names[i] if names else f"TK{i}", 18) for i in range(max(n_assets, 3))]
     b = Broker()
     b.quote_token = toks[account_quote]
     for i in range(n_assets):
@@ -44,15 +46,18 @@ def account_world(S, n_assets, quotes, account_quote):
     return World(broker=b, toks=toks, nvs=nvs, prices=pr, quotes=quotes)
 
 
-ACC_SHAPES = {"quick": [{"assets": 2, "quotes": [0, 1], "acc": 0}, {"assets": 3, "quotes": [1, 1, 2], "acc": 1}, {"assets": 1, "quotes": [], "acc": 0}],
+ACC_SHAPES = {"quick": [{"assets": 2, "quotes": [0, 1], "acc": 0}, {"assets": 3, "quotes": [1, 1, 2], "acc": 1}, {"assets": 1, "quotes": [], "acc": 0},
+                        {"assets": 2, "quotes": [1, 2], "acc": 0, "names": ["USDC", "USDT", "DAI"]}, {"assets": 3, "quotes": [1, 2, 0], "acc": 0, "names": ["USD", "USDC", "WETH"]}],
               "thorough": [{"assets": 2, "quotes": [0, 1], "acc": 0}, {"assets": 3, "quotes": [1, 1, 2], "acc": 1}, {"assets": 1, "quotes": [], "acc": 0},
-                           {"assets": 3, "quotes": [0, 1, 2, 0], "acc": 2}, {"assets": 0, "quotes": [1], "acc": 0}]}
+                           {"assets": 3, "quotes": [0, 1, 2, 0], "acc": 2}, {"assets": 0, "quotes": [1], "acc": 0},
+                           {"assets": 2, "quotes": [1, 2], "acc": 0, "names": ["USDC", "USDT", "DAI"]}, {"assets": 3, "quotes": [1, 2, 0], "acc": 0, "names": ["USD", "USDC", "WETH"]},
+                           {"assets": 3, "quotes": [0, 1], "acc": 2, "names": ["WETH", "USDT", "BUSD"]}]}
 
 
 @proof("C01", "account/net_value==wallet-at-prices+sum(market-value-in-account-quote)", strength="S", shapes=ACC_SHAPES)
 def po_account(S):
     sh = S.shape
-    w = account_world(S, sh["assets"], sh["quotes"], sh["acc"])
+    w = account_world(S, sh["assets"], sh["quotes"], sh["acc"], sh.get("names"))
     st = w.broker.get_account_status(w.prices, T0)
     wallet = 0
     for i in range(sh["assets"]):
